@@ -72,7 +72,7 @@ prop("C04", "Only validated requests move data", "exploration", "mgrx",
 
 prop("C05", "Only the counterparty, in its proper role", "exploration", "mgrx",
      "property testing (rapid): datastore snapshot diff and transport call log restricted to pre-existing channel ids after every generated message; single-field mutations of valid restart requests",
-     [hx("TestC05_Mgrx", 3600, 128000), hx("TestC05_MgrxRestart", 4500, 128000), hx("TestC16_Gsx", 2400, 32000)],
+     [hx("TestC05_Mgrx", 3600, 128000), hx("TestC05_MgrxRestart", 4500, 128000), hx("TestC16_Gsx", 2400, 32000), hx("TestC13_Migrate", 1200, 16000)],
      ["a refused message may cause transport calls on the non-existing channel id derived from its sender (DESIGN 6.5); 'untouched' is asserted for ids that existed before the message"],
      "generated open-channel sets x senders x message kinds x colliding ids x paths; sampled",
      TRUST)
